@@ -18,6 +18,7 @@ EXPLANATION = (
     "atom indices (abs(i - j) == 1): atom order is arbitrary.  Rules are generic and run on MoleculeStandardizer (package-wide in "
     "the thorough tier)."
     ' (Y4) functions that mutate a list argument are only called with a fresh copy; (Y5) the scan over recognised groups stops early only under a test that the rewrite changed the SMILES; (Y6) no textual rewrite (re.sub / str.replace, directly or through a callee) is applied to the SMILES inside the standardiser.'
+    " (Y7) the rewrite-until-stable loop is not capped by a bound independent of the input; (Y8) a hand-made hydrogen increase is not conditional on the receiver's current hydrogen count unless the other outcome refuses the rewrite; (Y9) every bond-order rewrite adjusts explicit hydrogen counts (atoms in brackets have no implicit hydrogens); (Y10) an absolute positive hydrogen count is set only after the atom's hydrogens were tested."
 )
 ASSUMPTIONS = ["atom indices reported by the functional-group query refer to the SMILES that was queried"]
 
